@@ -296,4 +296,19 @@ PROPS['C10'].update({
     'level_note': 'Label containers abstracted by membership and last appended position (a strictly increasing sequence is determined by its set).',
 })
 
+PROPS['C17'].update({
+    'units': ['lattices._annotate', 'common.iterunion', 'definitions.copy', 'definitions.inverted', 'definitions.transposed', 'tools.Unique.copy',
+              'definitions.set_object', 'definitions.set_property', 'definitions.conflicting_pairs'],
+    'order_scan': True,
+    'level': 'other',
+    'proved_part': 'order independence per site: a syntactic scan of the whole package finds every place where a set-typed value is iterated, converted to an ordered form, '
+                   'rendered, merged into an ordered container or escapes; each site is discharged by a proved unit (e.g. _annotate for every iteration order, iterunion depends on the '
+                   'seed set only) or a syntactic argument; functional postconditions proved with set order left arbitrary (A-SET) cannot depend on the hash seed',
+    'bounded_part': 'the cross-process quantifier itself: the observation corpus under several PYTHONHASHSEED values and allocation patterns',
+    'technique': 'contract-based: per-site order-independence obligations (syntactic scan + proved units under arbitrary set order); bounded multi-seed subprocess comparison',
+    'level_text': 'Every set-order site of the package is on a discharged list; a new site is an ungenerated obligation. Cross-process comparison is bounded.',
+    'level_note': 'The scan is an over-approximation by syntax (set displays/comprehensions/set()/frozenset()/set operators/_seen/_pairs and local names assigned from them); '
+                  'parameters whose run-time value is a set are not tracked. id()-based orders other than set iteration are not modelled.',
+})
+
 NOT_APPLICABLE = {}
